@@ -69,6 +69,8 @@ static void gen(Plan* p, Rng* r, int tier, long idx) {
     plan_set(p, "synth_dict", (idx % 4) == 1);          /* hand-built entropy tables instead of trained ones */
     plan_set(p, "in_shape", (idx % 8) == 1 || (idx % 8) == 6);   /* 1: uncompressible 128 KiB blocks first, then a block of far references (dictionary start, first block) */
     plan_set(p, "shape_seed", (int64_t)(rng_u64(r) >> 2));
+    /* declared content type: the dictionary is DECLARED raw content although its bytes may look like (or be) a formatted dictionary; with every attach preference */
+    if ((idx % 8) == 3) { plan_set(p, "dct_raw", 1); plan_set(p, "raw_magic", (int64_t)rng_below(r, 3)); plan_set(p, "attach", (int64_t)rng_below(r, 4)); plan_set(p, "cmode", 1 + (int64_t)rng_below(r, 5)); plan_set(p, "store_fault", 0); plan_set(p, "share", 0); plan_set(p, "mutate_header", 0); plan_set(p, "synth_dict", 0); }
     sim_sched_plan_defaults(p, r, 0);
 }
 
@@ -89,7 +91,7 @@ static void* share_thread(void* arg) {
 
 static void exec(const Plan* p) {
     Sess s; ZSTD_CCtx* c; ZSTD_CDict* cd = NULL; size_t cap, r = 0; uint8_t* dst; const char* e; int cmode = (int)plan_get(p, "cmode", 0), dmode = (int)plan_get(p, "dmode", 0);
-    int const level = sess_get_cparam(p, "compressionLevel", 3); unsigned did_dict, did_frame; int raw_prefix; int const sf = (int)plan_get(p, "store_fault", 0);
+    int const level = sess_get_cparam(p, "compressionLevel", 3); unsigned did_dict, did_frame; int raw_prefix; int const sf = (int)plan_get(p, "store_fault", 0); int const raw_decl = plan_get(p, "dct_raw", 0) && cmode >= 1; ZSTD_dictContentType_e const dct = raw_decl ? ZSTD_dct_rawContent : ZSTD_dct_auto;
     sess_init(&s); sess_make_input(&s, p);
     { size_t want = (size_t)plan_get(p, "dict_size", 0); if (want < 8) { Rng r0; rng_seed(&r0, (uint64_t)plan_get(p, "dict_seed", 1), "tiny"); s.dict = (uint8_t*)malloc(want + 1); s.dict_size = want; gen_input(&r0, GEN_TEXT, s.dict, want); } else sess_make_dict(&s, p); }
     /* unusual entropy tables: mutate bytes of the structured header; keep only if BOTH loaders accept */
@@ -126,7 +128,8 @@ static void exec(const Plan* p) {
         }
         free(s.in); s.in = in2; s.in_size = total; sim_probe("c08.far_reference_input");
     }
-    raw_prefix = (cmode == 5);
+    if (raw_decl && plan_get(p, "raw_magic", 0) == 1 && s.dict_size >= 8) { s.dict[0] = 0x37; s.dict[1] = 0xA4; s.dict[2] = 0x30; s.dict[3] = 0xEC; }   /* arbitrary content that merely starts with the dictionary magic */
+    raw_prefix = (cmode == 5) || raw_decl;
     did_dict = raw_prefix ? 0 : ZSTD_getDictID_fromDict(s.dict, s.dict_size);
     cap = ZSTD_compressBound(s.in_size) + 64; dst = (uint8_t*)malloc(cap);
     c = ZSTD_createCCtx_advanced(sess_cmem());
@@ -134,17 +137,19 @@ static void exec(const Plan* p) {
     if (plan_get(p, "reuse", 0) && s.dict_size >= 8) { ZSTD_CCtx_reset(c, ZSTD_reset_session_and_parameters); ZSTD_CCtx_setParameter(c, ZSTD_c_forceAttachDict, (int)plan_get(p, "reuse", 0)); ZSTD_CCtx_loadDictionary(c, s.dict, s.dict_size / 2 + 4); r = ZSTD_compress2(c, dst, cap, s.in, s.in_size / 2); if (ZSTD_isError(r)) { /* the history frame uses a TRUNCATED copy of the dictionary: a structured one cut inside its tables is legitimately refused (reported as dictionary_corrupted or, through the local-dictionary path, memory_allocation) */ if (s.dict[0] == 0x37 && s.dict[1] == 0xA4 && s.dict[2] == 0x30 && s.dict[3] == 0xEC && ZSTD_createCDict(s.dict, s.dict_size / 2 + 4, 3) == NULL) sim_probe("c08.history_truncated_dict_refused"); else sim_violation("compress_error", "history frame: %s", ZSTD_getErrorName(r)); } ZSTD_CCtx_reset(c, ZSTD_reset_session_and_parameters); }
     /* ---- compress ---- */
     if (cmode == 0) r = ZSTD_compress_usingDict(c, dst, cap, s.in, s.in_size, s.dict, s.dict_size, level);
-    else if (cmode == 1 || cmode == 2) { cd = ZSTD_createCDict_advanced(s.dict, s.dict_size, cmode == 1 ? ZSTD_dlm_byCopy : ZSTD_dlm_byRef, ZSTD_dct_auto, ZSTD_getCParams(level, s.in_size, s.dict_size), sess_cmem());
-        if (!cd) { if (s.dict_size >= 8 && !(s.dict[0] == 0x37 && s.dict[1] == 0xA4 && s.dict[2] == 0x30 && s.dict[3] == 0xEC)) sim_violation("cdict_rejected", "createCDict_advanced rejects a raw-content dictionary of %zu bytes", s.dict_size); goto done; }
+    else if (cmode == 1 || cmode == 2) { cd = ZSTD_createCDict_advanced(s.dict, s.dict_size, cmode == 1 ? ZSTD_dlm_byCopy : ZSTD_dlm_byRef, dct, ZSTD_getCParams(level, s.in_size, s.dict_size), sess_cmem());
+        if (!cd) { if (raw_decl) sim_violation("cdict_rejected", "createCDict_advanced rejects a dictionary of %zu bytes declared raw content", s.dict_size); if (s.dict_size >= 8 && !(s.dict[0] == 0x37 && s.dict[1] == 0xA4 && s.dict[2] == 0x30 && s.dict[3] == 0xEC)) sim_violation("cdict_rejected", "createCDict_advanced rejects a raw-content dictionary of %zu bytes", s.dict_size); goto done; }
         r = ZSTD_compress_usingCDict(c, dst, cap, s.in, s.in_size, cd); }
     else { sess_apply_cparams(c, p); ZSTD_CCtx_setParameter(c, ZSTD_c_nbWorkers, 0);
-        if (cmode == 3) r = ZSTD_CCtx_loadDictionary(c, s.dict, s.dict_size);
-        else if (cmode == 4) { cd = ZSTD_createCDict_advanced(s.dict, s.dict_size, ZSTD_dlm_byCopy, ZSTD_dct_auto, ZSTD_getCParams(level, 0, s.dict_size), sess_cmem()); if (!cd) goto done; r = ZSTD_CCtx_refCDict(c, cd); }
+        if (plan_get(p, "dct_raw", 0)) ZSTD_CCtx_setParameter(c, ZSTD_c_forceAttachDict, (int)plan_get(p, "attach", 0));   /* default / attach / copy / load */
+        if (cmode == 3) r = raw_decl ? ZSTD_CCtx_loadDictionary_advanced(c, s.dict, s.dict_size, ZSTD_dlm_byCopy, dct) : ZSTD_CCtx_loadDictionary(c, s.dict, s.dict_size);
+        else if (cmode == 4) { cd = ZSTD_createCDict_advanced(s.dict, s.dict_size, ZSTD_dlm_byCopy, dct, ZSTD_getCParams(level, 0, s.dict_size), sess_cmem()); if (!cd) { if (raw_decl) sim_violation("cdict_rejected", "createCDict_advanced rejects a dictionary of %zu bytes declared raw content", s.dict_size); goto done; } r = ZSTD_CCtx_refCDict(c, cd); }
         else r = ZSTD_CCtx_refPrefix(c, s.dict, s.dict_size);
-        if (ZSTD_isError(r)) { sim_probe("c08.dictionary_rejected_by_loader"); goto done; }
+        if (ZSTD_isError(r)) { if (raw_decl) sim_violation("raw_dictionary_rejected", "a dictionary declared raw content is refused by the loader (cmode %d): %s", cmode, ZSTD_getErrorName(r)); sim_probe("c08.dictionary_rejected_by_loader"); goto done; }
         { ZSTD_inBuffer in; ZSTD_outBuffer out; size_t half = s.in_size / 2; in.src = s.in; in.size = half; in.pos = 0; out.dst = dst; out.size = cap; out.pos = 0;
           r = ZSTD_compressStream2(c, &out, &in, ZSTD_e_continue); if (!ZSTD_isError(r)) { in.size = s.in_size; do { r = ZSTD_compressStream2(c, &out, &in, ZSTD_e_end); } while (!ZSTD_isError(r) && r != 0); } if (!ZSTD_isError(r)) r = out.pos; } }
     if (ZSTD_isError(r)) {
+        if (raw_decl) sim_violation("raw_dictionary_rejected", "compression with a dictionary declared raw content fails (cmode %d, attach preference %d): %s", cmode, (int)plan_get(p, "attach", 0), ZSTD_getErrorName(r));
         if (ZSTD_getErrorCode(r) == ZSTD_error_dictionary_corrupted || ZSTD_getErrorCode(r) == ZSTD_error_dictionaryCreation_failed) { sim_probe("c08.dictionary_rejected_by_loader"); goto done; }
         sim_violation("compress_error", "compression with an accepted dictionary fails (cmode %d): %s", cmode, ZSTD_getErrorName(r));
     }
@@ -153,6 +158,7 @@ static void exec(const Plan* p) {
     { int const flag = (cmode >= 3) ? sess_get_cparam(p, "dictIDFlag", 1) : 1; unsigned expect = (flag && !raw_prefix) ? did_dict : 0;
       if (did_frame != expect) sim_violation("dictid_mismatch", "frame records dictID %u, dictionary has %u (dictIDFlag %d, cmode %d)", did_frame, did_dict, flag, cmode);
       if (cd && ZSTD_getDictID_fromCDict(cd) != did_dict) sim_violation("dictid_mismatch", "getDictID_fromCDict %u != getDictID_fromDict %u", ZSTD_getDictID_fromCDict(cd), did_dict); }
+    if (raw_decl) sim_probe("c08.declared_raw_content");
     sess_check_conformance(dst, r, s.in, s.in_size, s.dict, s.dict_size, raw_prefix, 0, 0, 0, cmode >= 3 ? p : NULL);
     /* ---- decode with the right dictionary through dmode ---- */
     { ZSTD_DCtx* d = ZSTD_createDCtx_advanced(sess_cmem()); ZSTD_DDict* dd = NULL; ZSTD_DDict* others[3] = { 0, 0, 0 }; uint8_t* back = (uint8_t*)sim_buf_new(s.in_size); size_t q; uint8_t od[3][64]; int k;
